@@ -751,14 +751,13 @@ impl InflightSim {
             out.oracle_fail("inflight-analyzer-window", &format!("{what}: index={} len={}", d.ta_index, d.ta_trace.len()));
         }
     }
-    /// slow-block marks belong to in-flight blocks. The only way the code as written lets a mark
-    /// outlive its request is `remove_by_block` of a block whose requesting peer has no scheduler any
-    /// more (evicted by `prune`): `allowed`. Any other new mark without a request is a violation.
-    fn stale_check(&self, out: &mut Out, what: &str, before: &Dump, d: &Dump, allowed: Option<Key>) {
+    /// slow-block marks belong to in-flight blocks: `trace_number` within `inflight_states` after every
+    /// operation (theorem `trace_sub_states`); a mark that was already stale before the op is reported once
+    fn stale_check(&self, out: &mut Out, what: &str, before: &Dump, d: &Dump) {
         for k in d.trace.keys() {
             if !d.states.contains_key(k) {
                 let was_stale = before.trace.contains_key(k) && !before.states.contains_key(k);
-                if !was_stale && Some(*k) != allowed {
+                if !was_stale {
                     out.oracle_fail("inflight-mark-without-request", &format!("{what}: trace holds {k:?}, which is not in flight (trace must stay within inflight_states)"));
                 }
             }
@@ -802,7 +801,7 @@ impl InflightSim {
         }
         out.op(&op, &format!("{r} {}", dump_str(&d)));
         self.check(out, &op, &d);
-        self.stale_check(out, &op, &before, &d, None);
+        self.stale_check(out, &op, &before, &d);
     }
     fn rmpeer(&mut self, out: &mut Out, peer: u64) {
         let before = dump_of(&self.t);
@@ -839,7 +838,7 @@ impl InflightSim {
         self.frame(out, &op, &before, &d, true, true, true);
         out.op(&op, &format!("{n} {}", dump_str(&d)));
         self.check(out, &op, &d);
-        self.stale_check(out, &op, &before, &d, None);
+        self.stale_check(out, &op, &before, &d);
     }
     fn rmblock(&mut self, out: &mut Out, now: u64, k: Key) {
         self.guard.set_faketime(now);
@@ -857,11 +856,12 @@ impl InflightSim {
         if r != was.is_some() || d.states != want_states || lists(&d) != want_lists || (was.is_none() && d != before) {
             out.oracle_fail("inflight-rmblock-not-exact", &format!("{op}: returned {r}, was in flight {}", was.is_some()));
         }
-        // the slow mark goes with the request (when the requesting peer is still tracked); the peer's
-        // window follows the response-time class; nobody else's counters move
+        // the slow mark goes with the request, whoever sent the block (also when the requesting peer has been
+        // evicted by prune: finding F23, repaired in /repo 4f3b7cd); the peer's window follows the
+        // response-time class; nobody else's counters move
         let tracked = was.map(|(p, _)| before.scheds.contains_key(&p)).unwrap_or(false);
         let mut want_trace = before.trace.clone();
-        if tracked {
+        if was.is_some() {
             want_trace.remove(&k);
         }
         if d.trace != want_trace {
@@ -918,12 +918,15 @@ impl InflightSim {
         }
         out.op(&op, &format!("{r} {}", dump_str(&d)));
         self.check(out, &op, &d);
-        // reported finding on the unchanged tree (corpus inflight-stale-mark-from-evicted-peer.ops): the block arrived
-        // from a peer that `prune` evicted, and its slow mark outlives the request. Permitted and counted, not failing.
-        if was.is_some() && !tracked && d.trace.contains_key(&k) {
-            out.count("inflight-stale-mark-from-evicted-peer");
+        // F23 (corpus inflight-stale-mark-from-evicted-peer.ops): the block arrived from a peer that `prune` evicted;
+        // its slow mark must not outlive the request (a later request of the block would inherit it)
+        if was.is_some() && !tracked {
+            out.count("inflight-arrival-from-evicted-peer");
+            if d.trace.contains_key(&k) {
+                out.oracle_fail("inflight-stale-mark-from-evicted-peer", &format!("{op}: the block arrived from evicted peer {:?}; its slow mark {:?} is kept without a request", was.map(|x| x.0), d.trace.get(&k)));
+            }
         }
-        self.stale_check(out, &op, &before, &d, if was.is_some() && !tracked { Some(k) } else { None });
+        self.stale_check(out, &op, &before, &d);
     }
     /// `prune` as specified, on the dump before the call: (table after, disconnect list)
     fn spec_prune(&self, before: &Dump, now: u64, tip: u64) -> (Dump, BTreeSet<u64>) {
@@ -1024,7 +1027,7 @@ impl InflightSim {
         self.frame(out, &op, &before, &d, true, true, false);
         out.op(&op, &format!("disconnect={} {}", show(ds), dump_str(&d)));
         self.check(out, &op, &d);
-        self.stale_check(out, &op, &before, &d, None);
+        self.stale_check(out, &op, &before, &d);
     }
     fn mark(&mut self, out: &mut Out, now: u64, tip: u64) {
         self.guard.set_faketime(now);
@@ -1048,7 +1051,7 @@ impl InflightSim {
         self.frame(out, &op, &before, &d, true, true, true);
         out.op(&op, &format!("ok {}", dump_str(&d)));
         self.check(out, &op, &d);
-        self.stale_check(out, &op, &before, &d, None);
+        self.stale_check(out, &op, &before, &d);
     }
     fn policy(&mut self, out: &mut Out, adjustment: bool, protect: usize) {
         let before = dump_of(&self.t);
@@ -1163,6 +1166,61 @@ fn inflight_case(out: &mut Out, rng: &mut Rng, n_ops: usize, long: bool) {
     }
 }
 
+/// the F23 pattern with random parameters and noise: a peer is evicted by prune (punishing policy, >= 3
+/// time-outs) while a far-ahead request of it (beyond tip+20) stays in flight; the tip catches up, the block
+/// is marked slow and then arrives / the peer is dropped / the request times out; another peer requests the
+/// block again around the low_time edge; prune
+fn inflight_evicted_case(out: &mut Out, rng: &mut Rng) {
+    out.begin_case("inflight evicted peer with a far-ahead request");
+    let mut sim = InflightSim::new();
+    let mut now = 1_000 + rng.below(5_000);
+    let tip = rng.below(6);
+    let others = rng.below(3); // further peers, tracked throughout
+    sim.policy(out, true, if rng.chance(3, 4) { others as usize } else { others as usize + 1 });
+    let near = 3 + rng.below(3);
+    for i in 0..near {
+        sim.insert(out, now, 1, (tip + 1 + i, (tip + 1 + i) * 10));
+    }
+    let far = tip + 21 + rng.below(40);
+    sim.insert(out, now, 1, (far, far * 10));
+    for q in 0..others {
+        sim.insert(out, now + rng.below(3), 10 + q, (tip + 10 + q, (tip + 10 + q) * 10 + 1));
+    }
+    now += 30_001 + rng.below(500);
+    sim.prune(out, now, tip);
+    let evicted = !dump_of(&sim.t).scheds.contains_key(&1) && dump_of(&sim.t).states.contains_key(&(far, far * 10));
+    // the tip catches up with the far block
+    let tip2 = far - 1 + rng.below(2);
+    now += rng.below(9_000);
+    if rng.chance(5, 6) {
+        sim.mark(out, now, tip2);
+    }
+    let marked = dump_of(&sim.t).trace.contains_key(&(far, far * 10));
+    now += rng.below(1_600);
+    match rng.below(6) {
+        0 => sim.rmpeer(out, 1),
+        1 => sim.prune(out, now, tip2),
+        _ => sim.rmblock(out, now, (far, far * 10)),
+    }
+    // somebody else asks for the block again; prune around the mark's low_time edge
+    now += match rng.below(3) {
+        0 => rng.below(200),
+        1 => rng.range(1_400, 1_600),
+        _ => rng.range(1_600, 9_000),
+    };
+    sim.insert(out, now, 2, (far, far * 10));
+    let was_in_flight = dump_of(&sim.t).states.get(&(far, far * 10)).map(|x| x.0) == Some(2);
+    sim.prune(out, now + rng.below(3), tip2);
+    if was_in_flight && !dump_of(&sim.t).states.contains_key(&(far, far * 10)) {
+        // nothing can have timed out within 2 ms and a fresh request carries no mark
+        out.oracle_fail("inflight-fresh-request-released", &format!("request of block {far} from peer 2 released within 2 ms of being made"));
+    }
+    if evicted && marked {
+        out.count("inflight-evicted-marked-arrival-pattern");
+        out.nontrivial(format!("inflight-evicted near={near} far={far} others={others}"));
+    }
+}
+
 fn inflight_replay(out: &mut Out, ops: &[String]) {
     let mut sim = InflightSim::new();
     for line in ops {
@@ -1210,6 +1268,9 @@ fn run_inflight(opts: &Opts, out: &mut Out) -> &'static str {
     for _ in 0..cases * opts.scale as usize {
         let n = rng.range(10, 60) as usize;
         inflight_case(out, &mut rng, n, false);
+    }
+    for _ in 0..(cases / 10) * opts.scale as usize {
+        inflight_evicted_case(out, &mut rng);
     }
     // long runs: more than TIME_TRACE_SIZE arrivals so that the time analyzer re-sorts its window
     for _ in 0..longs * opts.scale as usize {
@@ -1538,6 +1599,161 @@ fn locator_case(out: &mut Out, rng: &mut Rng, base: &std::path::Path, case_no: u
     let _ = std::fs::remove_dir_all(&dir);
 }
 
+/// how often the loop of `get_locator` takes its halving branch for a start number (index sequence only)
+fn locator_halvings(n: u64) -> usize {
+    let (mut step, mut len, mut index, mut halvings) = (1u64, 0usize, n, 0usize);
+    loop {
+        len += 1;
+        if len >= 10 {
+            step <<= 1;
+        }
+        if index < step * 2 {
+            if len < 52 && index > 8192 {
+                index >>= 1;
+                halvings += 1;
+                continue;
+            }
+            return halvings;
+        }
+        index -= step;
+    }
+}
+
+/// the real `ActiveChain::get_locator` above ONE_DAY_BLOCK_NUMBER (8192): a short real main chain and a
+/// header-only chain (`SyncShared::insert_valid_header`, as the headers process does for verified headers)
+/// that ends beyond 8192, with a header-only fork off it; the halving branch of the locator loop runs on the
+/// node itself (the skip stream only replays that loop in the harness)
+fn locator_long_case(out: &mut Out, rng: &mut Rng, base: &std::path::Path, case_no: usize) {
+    use crate::node::*;
+    use ckb_types::core::HeaderBuilder;
+    let cfg = NodeCfg { epoch_len: 1000, genesis_cells: 1, with_pool: false, ..Default::default() };
+    let consensus = make_consensus(&cfg);
+    let dir = base.join(format!("long{case_no}"));
+    let node = Node::start(&dir.join("node"), consensus.clone(), &cfg);
+    let mut builder = ChainBuilder::new(consensus.clone(), &dir.join("builder"));
+    let (_tx, rx) = ckb_channel::unbounded();
+    let sync_shared = ckb_sync::SyncShared::new(node.shared.clone(), Default::default(), rx);
+    out.begin_case("locator node long header chain");
+    // id -> (hash, number, parent id)
+    let mut hdrs: Vec<(Byte32, u64, u64)> = vec![(consensus.genesis_hash(), 0, 0)];
+    let mut ids: HashMap<Byte32, u64> = HashMap::new();
+    ids.insert(consensus.genesis_hash(), 0);
+    out.op("nhdr 0 0 0", "ok");
+    // a short real main chain
+    let m = rng.range(3, 9);
+    let mut tip_header = consensus.genesis_block().header();
+    for k in 0..m {
+        let blk = builder.build(&hdrs[k as usize].0.clone(), &BlockSpec { salt: k + 1, ..Default::default() });
+        assert_eq!(node.process(&blk), Ok(true), "valid block rejected");
+        let id = hdrs.len() as u64;
+        hdrs.push((blk.hash(), blk.number(), k));
+        ids.insert(blk.hash(), id);
+        out.op(&format!("nhdr {id} {} {k}", blk.number()), "ok");
+        tip_header = blk.header();
+    }
+    let main_tip = m;
+    // header-only chains: numbers, parents and timestamps are all insert_valid_header reads
+    let mut extend = |out: &mut Out, hdrs: &mut Vec<(Byte32, u64, u64)>, ids: &mut HashMap<Byte32, u64>, parent: u64, salt: u64| -> u64 {
+        let (ph, pn, _) = hdrs[parent as usize].clone();
+        let n = pn + 1;
+        let hv = HeaderBuilder::default()
+            .number(n)
+            .parent_hash(ph)
+            .epoch(EpochNumberWithFraction::new(n / 1000, n % 1000, 1000))
+            .timestamp(tip_header.timestamp() + n * 8_000 + salt)
+            .compact_target(tip_header.compact_target())
+            .nonce(salt as u128)
+            .build();
+        sync_shared.insert_valid_header(PeerIndex::new(1), &hv);
+        let id = hdrs.len() as u64;
+        hdrs.push((hv.hash(), n, parent));
+        ids.insert(hv.hash(), id);
+        out.op(&format!("nhdr {id} {n} {parent}"), "ok");
+        id
+    };
+    let from = rng.range(1, m);
+    // the halving branch (`index > ONE_DAY_BLOCK_NUMBER` when the stride overtakes the index) is first taken at 16392
+    let top = 16392 + rng.range(10, 3000);
+    let mut cur = from;
+    while hdrs[cur as usize].1 < top {
+        cur = extend(out, &mut hdrs, &mut ids, cur, 0);
+    }
+    let long_tip = cur;
+    // a fork off the long chain, possibly itself ending above 8192
+    let fork_from = if rng.chance(1, 2) { long_tip - rng.below(600) } else { rng.range(m + 1, long_tip) };
+    let mut f = fork_from;
+    for _ in 0..rng.range(1, 400) {
+        f = extend(out, &mut hdrs, &mut ids, f, 1);
+    }
+    let fork_tip = f;
+    assert_eq!(node.tip_hash(), hdrs[main_tip as usize].0, "main chain unchanged");
+    out.op(&format!("main {main_tip}"), &format!("ok {}", m + 1));
+    let walk = |mut id: u64, target: u64| -> Option<u64> {
+        if target > hdrs[id as usize].1 {
+            return None;
+        }
+        while hdrs[id as usize].1 > target {
+            id = hdrs[id as usize].2;
+        }
+        Some(id)
+    };
+    let chain = sync_shared.active_chain();
+    // the header at exactly 8192 / 8193 on the long chain, both tips, random headers
+    let at = |n: u64| walk(long_tip, n).unwrap();
+    let mut starts = vec![long_tip, fork_tip, at(8192), at(8193), at(16391), at(16392), at(16393)];
+    for _ in 0..6 {
+        starts.push(rng.range(m + 1, hdrs.len() as u64 - 1));
+    }
+    let mut halved = 0;
+    for id in starts {
+        let n = hdrs[id as usize].1;
+        let loc = chain.get_locator(BlockNumberAndHash::new(n, hdrs[id as usize].0.clone()));
+        let got: Vec<u64> = loc.iter().map(|x| ids.get(x).copied().unwrap_or(u64::MAX)).collect();
+        let mut prev = u64::MAX;
+        for e in &got {
+            let ok = *e != u64::MAX && walk(id, hdrs[*e as usize].1) == Some(*e) && (prev == u64::MAX || hdrs[*e as usize].1 < prev);
+            if !ok {
+                out.oracle_fail("locator-not-parent-walk", &format!("loc {id}: {got:?}"));
+                break;
+            }
+            prev = hdrs[*e as usize].1;
+        }
+        if got.first() != Some(&id) || got.last() != Some(&0) {
+            out.oracle_fail("locator-ends", &format!("loc {id}: {got:?}"));
+        }
+        if locator_halvings(n) > 0 {
+            halved += 1;
+            out.count("locator-loc-with-halving");
+        }
+        out.op(&format!("loc {id} 1"), &show(got));
+        out.count("locator-loc-long");
+    }
+    for _ in 0..30 {
+        let id = if rng.chance(1, 3) { long_tip } else { rng.below(hdrs.len() as u64) };
+        let n = hdrs[id as usize].1;
+        let target = match rng.below(5) {
+            0 => n + 1 + rng.below(2),
+            1 => rng.below(m + 2),
+            2 => 8192u64.min(n),
+            _ => rng.below(n + 1),
+        };
+        let got = chain.get_ancestor(&hdrs[id as usize].0, target).map(|v| ids.get(&v.hash()).copied().unwrap_or(u64::MAX));
+        if got != walk(id, target) {
+            out.oracle_fail("ancestor-not-parent-walk", &format!("anc {id} {target}: got {got:?} walk {:?}", walk(id, target)));
+        }
+        out.op(&format!("anc {id} {target} 1"), &got.map(|x| x.to_string()).unwrap_or("none".into()));
+        out.count("locator-anc-long");
+    }
+    if halved > 0 {
+        out.nontrivial(format!("locator-long m={m} from={from} top={top} fork_from={} fork_len={}", hdrs[fork_from as usize].1, hdrs[fork_tip as usize].1 - hdrs[fork_from as usize].1));
+    }
+    drop(chain);
+    drop(sync_shared);
+    node.stop();
+    drop(builder);
+    let _ = std::fs::remove_dir_all(&dir);
+}
+
 fn run_locator(opts: &Opts, out: &mut Out) -> &'static str {
     let mut rng = Rng::new(opts.seed);
     let base = crate::node::scratch_dir(&opts.out, "c17loc");
@@ -1545,8 +1761,12 @@ fn run_locator(opts: &Opts, out: &mut Out) -> &'static str {
     for i in 0..cases {
         locator_case(out, &mut rng, &base, i);
     }
+    let longs = if opts.thorough() { 12 } else { 1 } * opts.scale as usize;
+    for i in 0..longs {
+        locator_long_case(out, &mut rng, &base, i);
+    }
     let _ = std::fs::remove_dir_all(&base);
-    "locator: every case (a real main chain of 12..45 blocks plus stored and header-only branches; distinct by shape)"
+    "locator: every case (a real main chain of 12..45 blocks plus stored and header-only branches; and a header-only chain ending above 8192 with a fork, locators taken on the running node; distinct by shape)"
 }
 
 // =================================================================================================
